@@ -249,7 +249,7 @@ def c16(pid, tier, seed):
         # the texts given to the builder before / after the tab width (with_message, with_prefix, with_tab_width, with_style in every order)
         fam("tabs_builder", conf="single", W=40, H=6, D=3 if q else 4, BarOps=("tick", "set_tab_width", "set_message", "finish_with_message"), MsgShapes=("tab",), Tpls=("PM", "TM"),
             TabWs=(8, 0, 1, 4), Fins=("AndLeave", "WithMessage"), M0="tab"),
-        fam("tabs_multi", conf="multi", W=40, H=12, Multi=True, MaxBars=2, D=4 if q else 5, BarOps=("set_tab_width", "set_style", "set_message", "abandon_with_message", "tick"),
+        fam("tabs_multi", conf="multi", W=40, H=12, Multi=True, MaxBars=2, D=4 if q else 5, BarOps=("set_tab_width", "set_style", "copy_style", "set_message", "abandon_with_message", "tick"),
             MsgShapes=("tab",), Tpls=("TM", "KM"), TabWs=(8, 1), Fins=("AndLeave",), shards=12),
     ]
     return screen_check(pid, tier, seed, fams,
